@@ -41,9 +41,9 @@ def ref_grammar():
 
 
 def ref_reader_grammar():
-    # the reader documents that it stops after the variant count (i16)
-    d = 'pstr i32 ( f32 )* i32 ( f32 )* i32 ( pstr i32 )* i32 ( UNIT )* i16'
-    return parse_ref('raw4 i32 i16 ( ' + d.replace('UNIT', REF_UNIT) + ' )*')
+    # the reader consumes exactly what the writer emits, variant blocks included (it keeps only their count): in a stream of
+    # several definitions anything left unread is parsed as the start of the next definition
+    return ref_grammar()
 
 
 def rule_fmt(ctx):
@@ -149,7 +149,7 @@ def rule_grammars(ctx):
            f'reader grammar is  {show(rg)}  but must be  {show(rref)}', rs.node, desc.module)
     nf = desc.methods.get('new_from')
     ng = canon(GrammarExtractor(repo, make_resolver(ctx, 'r')).of_func(nf))
-    one = canon(parse_ref('raw4 i32 i16 ' + 'pstr i32 ( f32 )* i32 ( f32 )* i32 ( pstr i32 )* i32 ( UNIT )* i16'.replace('UNIT', REF_UNIT)))
+    one = canon(parse_ref('raw4 i32 i16 ' + REF_DEF.replace('UNIT', REF_UNIT)))
     ctx.ob('C02.rgram', f'{desc.module.name}:SynthDesc.new_from:grammar', ng == one,
            f'new_from grammar is  {show(ng)}  but must be  {show(one)}', nf.node, desc.module)
     ctx.extra['reader_grammar'] = show(rg)
@@ -601,7 +601,46 @@ def _t2k_condition(ctx, ci, ev):
     return True
 
 
+def rule_multiout(ctx):
+    ctx.rule('C02.count', 'every constructible multi-output unit class creates its outputs: its _init_ugen (own or inherited below '
+                          'MultiOutUGen) calls _init_outputs or assigns self._channels; otherwise the unit is written with 0 outputs and '
+                          'its consumers point at outputs that do not exist')
+    repo = ctx.repo
+    mo = repo.cls('sc3.synth.ugen:MultiOutUGen')
+    base_names = {'MultiOutUGen', 'UGen', 'SynthObject'}
+    n = 0
+    for ci in sorted(repo.subclasses(mo, strict=True), key=lambda c: c.fq):
+        ctors = [k for k in ('ar', 'kr', 'ir', 'dr', 'new') if k in ci.methods or any(
+            k in b.methods for b in repo.mro(ci) if b.name not in base_names and repo.is_subclass(b, mo))]
+        if not ctors:
+            continue          # abstract base without constructors of its own
+        n += 1
+        init = repo.resolve_method(ci, '_init_ugen')
+        ok = init is not None and init.cls is not None and init.cls.name not in base_names and (
+            any(U.method_name(c) == '_init_outputs' for c in U.calls(init.node)) or
+            any(isinstance(x, ast.Assign) and any(U.is_self_attr(t, '_channels') for t in x.targets) for x in walk_local(init.node)))
+        ctx.ob('C02.count', f'{ci.fq}:creates-outputs', ok,
+               f'{ci.name} is a multi-output unit with constructors {ctors} but no _init_ugen that creates its output proxies', ci.node, ci.module)
+    ctx.require(n >= 30, 'C02.count', f'only {n} constructible multi-output classes found')
+
+
 def run(ctx):
+    rule_multiout(ctx)
+    # the bytes of a definition are cached only after the writer returned: a write that raises must not leave a truncated
+    # prefix behind that later as_bytes()/send() hand out
+    ctx.rule('C02.valid', 'rejected graphs produce no bytes (also not on a second request)')
+    ab = ctx.repo.func('sc3.synth.synthdef:SynthDef.as_bytes')
+    ws = [x for x in walk_local_ordered(ab.node) if isinstance(x, ast.Assign) and any(U.is_self_attr(t, '_bytes') for t in x.targets)]
+    ok = bool(ws)
+    for w in ws:
+        in_handler = any(isinstance(p_, ast.Try) and (U.in_body(w, p_, 'finalbody') or any(w in list(ast.walk(h)) for h in p_.handlers))
+                         for p_ in U.parent_chain(w))
+        blk = w._parent.body if hasattr(w._parent, 'body') and w in getattr(w._parent, 'body', []) else None
+        after_write = blk is not None and any('_write_def_list(' in norm(x) for x in blk[:blk.index(w)])
+        ok = ok and not in_handler and after_write
+    ctx.ob('C02.valid', f'{ab.fq}:cached-only-after-success', ok,
+           'self._bytes must be assigned on the normal path right after _write_def_list returned (never in a finally/except block): '
+           'otherwise a definition that cannot be written raises once and then hands out its truncated prefix', ab.node, ab.module)
     from .. import beliefs
     ctx.rule('C02.desc', 'the description keeps what it read: no value read from the definition is replaced because it is falsy (bus 0)')
     beliefs.rule_ordefault(ctx, 'C02.desc', ['sc3.synth.synthdesc'])
@@ -620,6 +659,12 @@ def run(ctx):
 
 
 MUTANTS = [
+    dict(rule='C02.count', name='(fix reverted) BeatTrack2 without _init_ugen', file='sc3/synth/ugens/machinelistening.py',
+         old="            paccuracy, lock, wscheme)\n\n    def _init_ugen(self, *inputs):  # override\n        self._inputs = inputs\n        return self._init_outputs(6, self.rate)\n", new="            paccuracy, lock, wscheme)\n"),
+    dict(rule='C02.rgram', name='(fix reverted) reader leaves the variant blocks unread', file='sc3/synth/synthdesc.py',
+         old="                for _ in range(num_variants):\n                    # Skip each block to leave the stream at the next def.\n                    frw.read_pascal_str(stream)\n                    frw.read_f32_list(stream, num_controls)\n", new=""),
+    dict(rule='C02.valid', name='as_bytes caches the buffer in a finally block (seed C02-d)', file='sc3/synth/synthdef.py',
+         old="            self._write_def_list([self], stream)\n            self._bytes = stream.getvalue()", new="            try:\n                self._write_def_list([self], stream)\n            finally:\n                self._bytes = stream.getvalue()\n                stream.close()"),
     dict(rule='C02.desc', name='(fix reverted) IODesc replaces bus 0 by ?', file='sc3/synth/synthdesc.py',
          old="        self.starting_channel = '?' if starting_channel is None\\\n            else starting_channel", new="        self.starting_channel = starting_channel or '?'"),
     dict(rule='C02.valid', name='(fix reverted) sequences pass the generic validity check', file='sc3/synth/ugen.py',
